@@ -1,6 +1,124 @@
-(** C07 — placeholder while the development is being built. *)
-From TV Require Import Stack.Model.
+(** C07 — Per-layer filters are isolated: a layer sees exactly what its own filters accept.
+    Statements only; the proofs live in Stack/{Passes,Interest,Register,Coll,Inv,Steps,Life,Build,Main}.v over the
+    executable model Stack/Model.v (thread-local FilterState bitmap + pending interest, Filtered, both Layered
+    impls, Option / Vec / Box wrappers, the Registry with the filter map stored per span, Context lookups by
+    FilterId, and the macro guard with the per-callsite interest cache), whose vocabulary is in Stack/Spec.v.
+    The model is compared with the real crates on every run (driver/props/c07.py); the one flag it reads from
+    the source (TVGen.Gen_stack, regenerated on every run) does not occur in any statement below.
+
+    Reading guide.  [coll] is a stack over the Registry, [layer] a tree of recording leaves [Rec], global filters
+    [Glob], per-layer filters [Filt], [Pair] (and_then), [LOpt], [LVec] of any depth and shape; [coll_recs c] lists
+    every leaf with the chain of per-layer filters attached to it, [coll_globs c] the global filters.
+    [run_spec] (Spec.v) says of every operation of a history, with [st] the state before it:
+      - event at callsite cs: leaf r is notified  <->  globals_accept c st m && no_veto c m && chain_accept st 0 (chain r) m
+      - span  at callsite cs: leaf r is notified  <->  globals_accept c st m && chain_accept st 0 (chain r) m
+      - enter / exit / record of a live span, and every close: leaf r is notified <-> r was notified of that span's creation
+      - nothing else is delivered.
+    The right-hand sides mention the global filters and r's own chain only: no other leaf's filters, no position in
+    the tree, no earlier operation ([st] enters only through [cur_cs]: what a context-dependent closure of r's own
+    chain sees as the current span through its own Context; for context-free filters it does not enter at all,
+    [C07_static_filters]). *)
+From Coq Require Import NArith List Bool.
+From TV Require Import Stack.Model Stack.Spec Stack.Register Stack.Build Stack.Main Stack.Harness.
+Import ListNotations.
 Local Open Scope N_scope.
-Theorem C07_placeholder : True.
-Proof. exact I. Qed.
-Print Assumptions C07_placeholder.
+
+(** ** Headline: for every well-formed stack (any depth and shape) and every clean history (any length), every
+    operation delivers exactly per the specification above.  [Clean] (= no operation leaves an [enabled] pass
+    without its own event / new_span) excludes the known finding F3, refuted below.  [HintSound]: the global
+    max level handed to the macros is sound (static summaries are property C08). *)
+Theorem C07_isolation : forall c mx pool h,
+  WF c -> HintSound c mx pool -> clean c mx pool h = true -> run_spec c mx pool init [] h.
+Proof. exact isolation. Qed.
+Print Assumptions C07_isolation.
+
+(** every stack of the class, as [build] makes it (FilterIds in on_subscribe order), is well formed:
+    the class is "every Filtered wraps recording layers only", at most 63 per-layer filters, distinct leaf names *)
+Theorem C07_built : forall c, PreWF c -> WF (build c).
+Proof. exact build_WF. Qed.
+Print Assumptions C07_built.
+
+(** ** The carrying invariant: between the operations of a clean history the thread's FilterState is empty *)
+Theorem C07_bitmap_clean : forall c mx pool h1 h2,
+  WF c -> HintSound c mx pool -> clean c mx pool (h1 ++ h2) = true ->
+  st_bits (final c mx pool init h1) = 0 /\ st_pending (final c mx pool init h1) = None.
+Proof. exact bitmap_clean. Qed.
+Print Assumptions C07_bitmap_clean.
+
+(** ** Lookups: whatever a leaf reads inside a callback (lookup_current, the scope of the event / span, parent(),
+    and navigating on from the spans a scope yields) mentions only spans that leaf was notified of, i.e. spans its
+    own filters (and the global ones) accepted *)
+Theorem C07_lookup_filtered : forall c mx pool h,
+  WF c -> HintSound c mx pool -> clean c mx pool h = true -> run_lookup c mx pool init [] h.
+Proof. exact lookup_filtered. Qed.
+Print Assumptions C07_lookup_filtered.
+
+(** ** Clean for syntactic reasons: a history without enabled! probes on a stack without vetoing leaves *)
+Theorem C07_clean_syntactic : forall c mx pool h,
+  WF c -> HintSound c mx pool -> no_vetoing_leaf c -> no_probe h -> clean c mx pool h = true.
+Proof. exact clean_syntactic. Qed.
+Print Assumptions C07_clean_syntactic.
+
+(** ** Independence made explicit for context-free filters: the chain's verdict is a function of the metadata *)
+Theorem C07_static_filters : forall st ch cm m,
+  (forall e, In e ch -> ctx_free (snd e)) -> chain_accept st cm ch m = static_accept ch m.
+Proof. exact chain_accept_static. Qed.
+Print Assumptions C07_static_filters.
+
+(** ** The callsite cache is sound for every stack of the class: a registered `never` means no leaf would ever
+    be notified, `always` that every global and every per-layer filter accepts whatever the context (so skipping
+    [enabled] changes nothing) *)
+Theorem C07_interest_never_sound : forall c m,
+  coll_shape c -> fst (c_register (haspsf c) c m None) = INever ->
+  forall st r, In r (coll_recs c) -> globals_accept c st m && chain_accept st 0 (snd r) m = false.
+Proof. exact register_never_sound. Qed.
+Print Assumptions C07_interest_never_sound.
+
+Theorem C07_interest_always_sound : forall c m,
+  coll_shape c -> fst (c_register (haspsf c) c m None) = IAlways ->
+  forall st, globals_accept c st m = true /\ forall r, In r (coll_recs c) -> chain_accept st 0 (snd r) m = true.
+Proof. exact register_always_sound. Qed.
+Print Assumptions C07_interest_always_sound.
+
+(** ** Known finding F3, refuted: on histories that are not clean the property fails.  Witness 1: an enabled!
+    probe (layers A: target app, B: targets app+other; event(app), enabled!(other), then event(app) is missed by
+    A).  Witness 2: no probe at all; a plain layer vetoes in [event_enabled] an event that A's filter rejected. *)
+Theorem C07_F3_refuted_probe :
+  exists c h cs n, WF c /\ HintSound c 5 pool45 /\ clean c 5 pool45 h = false /\ misses c 5 pool45 h cs n.
+Proof. exact F3_refuted_probe. Qed.
+Print Assumptions C07_F3_refuted_probe.
+
+Theorem C07_F3_refuted_veto :
+  exists c h cs n, WF c /\ HintSound c 5 pool45 /\ no_probe h /\ clean c 5 pool45 h = false /\ misses c 5 pool45 h cs n.
+Proof. exact F3_refuted_veto. Qed.
+Print Assumptions C07_F3_refuted_veto.
+
+(** ** Finding F71, refuted: the bound on FilterIds in [WF] (below 63, i.e. at most 63 per-layer filters) is needed.
+    With exactly 64 filters (the maximum [FilterId::new] accepts) all rejecting an event, the Registry vetoes it for
+    the whole stack: a leaf with no filter at all misses an event nothing rejected for it, in the first operation.
+    Conditional on the source still having `self.bits != u64::MAX` in [FilterMap::any_enabled] (flag regenerated on every run;
+    fixes/F71.patch turns it into `true`). *)
+Theorem C07_F71_refuted :
+  TVGen.Gen_stack.registry_vetoes_full = true ->
+  exists c cs n,
+    coll_shape c /\ NoDup (coll_ids c) /\ Forall (fun k => k < 64) (coll_ids c) /\
+    NoDup (map (fun r => fst (fst r)) (coll_recs c)) /\ HintSound c 5 pool45 /\
+    clean c 5 pool45 [OEvent cs] = true /\ misses c 5 pool45 [] cs n.
+Proof. exact F71_refuted. Qed.
+Print Assumptions C07_F71_refuted.
+
+(** ** Non-vacuity *)
+(** the hypotheses of the headline hold for a stack with a global filter, nested and side-by-side per-layer filters,
+    a context-dependent closure, Option / Vec wrappers, and a history with nested spans on which the leaves disagree *)
+Example C07_nonvacuous :
+  WF (build nv_stack) /\ HintSound (build nv_stack) 5 pool45 /\ clean (build nv_stack) 5 pool45 nv_history = true /\
+  (let outs := run_obs (build nv_stack) 5 pool45 nv_history in
+   deliveredb 1 (nth 0 outs []) = true /\ deliveredb 3 (nth 0 outs []) = false /\
+   deliveredb 4 (nth 7 outs []) = true /\ deliveredb 2 (nth 7 outs []) = false) /\
+  deliveredb 3 (nth 2 (run_obs (build nv_stack) 5 pool45 nv_history) []) = true.
+Proof. exact nonvacuous. Qed.
+
+(** the F3 stack with an event where the probe was: clean, and the leaf is notified *)
+Example C07_F3_clean_counterpart :
+  clean (build f3_stack) 5 pool45 [OEvent 6; OEvent 7] = true /\ ~ misses (build f3_stack) 5 pool45 [OEvent 6; OEvent 7] 6 1.
+Proof. exact F3_clean_counterpart. Qed.
